@@ -311,7 +311,7 @@ def run(tier, seed):
             yield ("rt", "const", name), ("const", name)
         for name in POS_NAMES:
             for xo, yo in itertools.product((0, 2), repeat=2):
-                for x, y in ((0, 0), (5, 255), (12, 3)):
+                for x, y in ((0, 0), (5, 255), (12, 3), (-1, 7), (7, -1), (-1, -1), (-128, 32767)):
                     yield ("rt", "pos", name, xo, yo, x, y), ("pos", (name, xo, yo, x, y))
         for rtype in ("ACTOR", "OBJECT", "PERFORMER"):
             for linked, name in ((0, None), (5, None), (386, None), (-1, "ACTOR_NAME"), (-1, "$VARLIKE")):
